@@ -243,6 +243,10 @@ func NewIndex(u *Unit) *Index {
 		}
 		p := u.Fset.PositionFor(id.Pos(), false)
 		ix.byPos[posKey{p.Filename, p.Line, p.Column}] = obj
+		// below a //line directive that names another .go file the linter displays the adjusted position
+		if pa := u.Fset.PositionFor(id.Pos(), true); pa.Filename != p.Filename && strings.HasSuffix(pa.Filename, ".go") {
+			ix.byPos[posKey{pa.Filename, pa.Line, pa.Column}] = obj
+		}
 		idn := Ident{kindOf(obj), name}
 		if _, dup := ix.byName[idn]; dup {
 			// identical text of two `_`/init declarations: keep the first, alias the second
